@@ -737,6 +737,99 @@ func C19(c *core.Ctx) {
 		}
 	}
 
+	// ---- R19.9 PrefixTable.Apply reports every change it makes: the routes are recomputed only
+	// when it returns true, so on every path from a mutation of a router's prefix set (an
+	// entry added or removed, the whole set replaced by a reset) the value returned is the
+	// constant true — not the initial false, and not something computed from the set after it
+	// was changed (a reset that empties a non-empty set must trigger the installer)
+	if ap := c.Fn("R19.9", "dv/table", "PrefixTable", "Apply"); ap != nil {
+		isPfx := func(v ssa.Value) bool {
+			_, path := core.FieldPath(v)
+			return len(path) > 0 && path[len(path)-1] == "Prefixes"
+		}
+		var muts []ssa.Instruction
+		core.Instrs(ap, func(in ssa.Instruction) {
+			switch x := in.(type) {
+			case *ssa.MapUpdate:
+				if isPfx(x.Map) {
+					muts = append(muts, in)
+				}
+			case *ssa.Store:
+				if fa, ok := x.Addr.(*ssa.FieldAddr); ok {
+					if _, fld := core.FieldAddrName(fa); fld == "Prefixes" {
+						muts = append(muts, in)
+					}
+				}
+			case *ssa.Call:
+				if b, ok := x.Call.Value.(*ssa.Builtin); ok && b.Name() == "delete" && len(x.Call.Args) == 2 && isPfx(x.Call.Args[0]) {
+					muts = append(muts, in)
+				}
+			}
+		})
+		type leaf struct {
+			v    ssa.Value
+			from *ssa.BasicBlock // control arrives from this block with value v
+		}
+		var leaves []leaf
+		core.Instrs(ap, func(in ssa.Instruction) {
+			r, ok := in.(*ssa.Return)
+			if !ok || len(r.Results) != 1 {
+				return
+			}
+			seen := map[ssa.Value]bool{}
+			var walk func(v ssa.Value, from *ssa.BasicBlock)
+			walk = func(v ssa.Value, from *ssa.BasicBlock) {
+				v = core.Strip(v)
+				if ph, isPhi := v.(*ssa.Phi); isPhi {
+					if seen[v] {
+						return
+					}
+					seen[v] = true
+					for i, e := range ph.Edges {
+						walk(e, ph.Block().Preds[i])
+					}
+					return
+				}
+				leaves = append(leaves, leaf{v, from})
+			}
+			walk(r.Results[0], r.Block())
+		})
+		reach := func(a, b *ssa.BasicBlock) bool {
+			if a == b {
+				return true
+			}
+			seen := map[*ssa.BasicBlock]bool{a: true}
+			work := []*ssa.BasicBlock{a}
+			for len(work) > 0 {
+				x := work[len(work)-1]
+				work = work[:len(work)-1]
+				for _, s2 := range x.Succs {
+					if s2 == b {
+						return true
+					}
+					if !seen[s2] {
+						seen[s2] = true
+						work = append(work, s2)
+					}
+				}
+			}
+			return false
+		}
+		bad := ""
+		for _, m := range muts {
+			for _, lf := range leaves {
+				if b, isC := core.ConstBool(lf.v); isC && b {
+					continue
+				}
+				if reach(m.Block(), lf.from) {
+					bad = fmt.Sprintf("after the change at %s the function can return %s", c.Pos(m), describeValue(lf.v))
+				}
+			}
+		}
+		c.Decide(len(muts) >= 2 && bad == "", "R19.9", "apply-reports-every-change", p.Pos(ap.Pos()), fmt.Sprintf("%d mutations of a prefix set; the value returned after each is the constant true", len(muts)), "PrefixTable.Apply does not report a change it made ("+bad+"): the installer is not triggered, and routes for prefixes that the router withdrew (a snapshot that resets its set to nothing) stay installed")
+		c.Floor("R19.9", "mutations of a prefix set in Apply", len(muts), 2)
+	}
+
 	// ---- R19.8 the prefix table and the route installer identify a prefix by its name. They
 	// key their maps by Name.Hash() and never compare the stored name: announcing, withdrawing
 	// or installing one of two prefixes with equal hash acts on the other.
